@@ -765,3 +765,89 @@ impl SimTy for ServRefU {
         AV::Service(self.0.principal.as_slice().to_vec())
     }
 }
+
+// ---------------------------------------------------------------- round-3 strengthening
+
+/// Two different Rust types whose `std::any::type_name` is identical (local items of two
+/// blocks of one function): the thread-local type memo must still tell them apart.
+pub fn same_named_types() -> Vec<crate::corpus::DynType> {
+    let a = {
+        #[derive(CandidType, Deserialize, Clone, Debug)]
+        struct Dup {
+            x: u8,
+        }
+        impl SimTy for Dup {
+            fn name() -> String {
+                "DupA".into()
+            }
+            fn sim_type(env: &mut SEnv) -> SType {
+                SType::record(vec![(SLabel::Named("x".into()), u8::sim_type(env))])
+            }
+            fn gen(rng: &mut Rng, s: usize) -> Self {
+                Dup { x: u8::gen(rng, s) }
+            }
+            fn av(&self, c: bool) -> AV {
+                AV::record(vec![(own_hash("x"), self.x.av(c))])
+            }
+        }
+        crate::corpus::dyn_of::<Dup>()
+    };
+    let b = {
+        #[derive(CandidType, Deserialize, Clone, Debug)]
+        struct Dup {
+            y: String,
+            z: Nat,
+        }
+        impl SimTy for Dup {
+            fn name() -> String {
+                "DupB".into()
+            }
+            fn sim_type(env: &mut SEnv) -> SType {
+                SType::record(vec![(SLabel::Named("y".into()), String::sim_type(env)), (SLabel::Named("z".into()), Nat::sim_type(env))])
+            }
+            fn gen(rng: &mut Rng, s: usize) -> Self {
+                Dup { y: String::gen(rng, s), z: Nat::gen(rng, s) }
+            }
+            fn av(&self, c: bool) -> AV {
+                AV::record(vec![(own_hash("y"), self.y.av(c)), (own_hash("z"), self.z.av(c))])
+            }
+        }
+        crate::corpus::dyn_of::<Dup>()
+    };
+    vec![a, b]
+}
+
+/// big numbers that stay inside every 128-bit host type (senders for i128/u128 receivers)
+#[derive(CandidType, Deserialize, Clone, Debug)]
+pub struct SmallNat(pub Nat);
+#[derive(CandidType, Deserialize, Clone, Debug)]
+pub struct SmallInt(pub Int);
+impl SimTy for SmallNat {
+    fn name() -> String {
+        "SmallNat".into()
+    }
+    fn sim_type(_: &mut SEnv) -> SType {
+        SType::Prim(Prim::Nat)
+    }
+    fn gen(rng: &mut Rng, _: usize) -> Self {
+        SmallNat(Nat::parse(crate::models::gen::gen_nat(rng, 120).to_decimal().as_bytes()).unwrap())
+    }
+    fn av(&self, c: bool) -> AV {
+        self.0.av(c)
+    }
+}
+impl SimTy for SmallInt {
+    fn name() -> String {
+        "SmallInt".into()
+    }
+    fn sim_type(_: &mut SEnv) -> SType {
+        SType::Prim(Prim::Int)
+    }
+    fn gen(rng: &mut Rng, _: usize) -> Self {
+        let m = crate::models::gen::gen_nat(rng, 120).to_decimal();
+        SmallInt(Int::parse(format!("{}{m}", if rng.chance(1, 2) && m != "0" { "-" } else { "" }).as_bytes()).unwrap())
+    }
+    fn av(&self, c: bool) -> AV {
+        self.0.av(c)
+    }
+}
